@@ -125,7 +125,14 @@ structure ClassDiagram where
   dts : List DataType
   classes : List Class
   rels : List Rel
+  /-- attributes related to a class across R102 that are NOT on the R103 chain starting at its first attribute
+      (R103 is conditional at both ends): (Obj_ID, attribute).  `mk_class` walks the chain and never sees them (and
+      which attribute is "first" is then a matter of row order: outside C14's domain); `gen_xsd_schema.build_class`
+      iterates R102 and declares them like any other attribute.  They are never referred to (R113, O_OIDA, O_REF). -/
+  loose : List (Nat × Attr) := []
   deriving Repr, Inhabited
+
+def looseOf (d : ClassDiagram) (cls : Nat) : List Attr := (d.loose.filter (fun p => p.1 == cls)).map (·.2)
 
 /-! lookups by identifier ("first row with that id") -/
 
